@@ -421,12 +421,59 @@ class Eval:
             return Derived(c)
         return None
 
+    def lift_derived(self, e):
+        """a condition that applies a modelled transform to the string in place (`s.lstrip("+-").casefold() in T`,
+        `s[1:-1].isdigit()`) is the same condition on a local bound to the transformed string"""
+        hits = []
+
+        def find(n, top=True):
+            if isinstance(n, (ast.Call, ast.Subscript)) and not self.is_str(n):
+                try:
+                    d = self.derive(n)
+                except Unsupported:
+                    d = None
+                if d is not None:
+                    hits.append((n, d))
+                    return
+            for ch in ast.iter_child_nodes(n):
+                find(ch, False)
+        find(e)
+        if not hits:
+            return e
+        new = clone(e)
+        # positions correspond between e and its clone
+        pairs = list(zip(ast.walk(e), ast.walk(new)))
+        for k, (node, d) in enumerate(hits):
+            name = f"$d{k}"
+            self.env[name] = d
+            twin = next(b for a, b in pairs if a is node)
+
+            class R(ast.NodeTransformer):
+                def visit(self, n):
+                    if n is twin:
+                        return ast.copy_location(ast.Name(id=name, ctx=ast.Load()), n)
+                    return super().visit(n)
+            new = R().visit(new)
+        return ast.fix_missing_locations(new)
+
     def cond(self, e, reach):
         if self.derived_in(e):
             return self.cond_derived(e, reach)
         try:
             return self.cond0(e, reach)
         except Unsupported:
+            # a transform applied to the string in place: the same condition on the transformed string
+            if isinstance(e, (ast.Compare, ast.Call)) and any(isinstance(n, ast.Attribute) and n.attr in ("strip", "lstrip", "rstrip", "partition")
+                                                               or isinstance(n, ast.Subscript) for n in ast.walk(e)):
+                saved = dict(self.env)
+                try:
+                    e2 = self.lift_derived(e)
+                    if e2 is not e and self.derived_in(e2):
+                        return self.cond_derived(e2, reach)
+                except Unsupported:
+                    pass
+                finally:
+                    self.env = saved
             if not self.mentions_str(e):
                 raise Opaque(ast.unparse(e))
             raise
